@@ -122,6 +122,7 @@ pub fn profile_cfg(profile: &str, content: &mut Rng) -> RunCfg {
         }
         "restart" => {
             c.f_crash = 30;
+            c.crash_in_bookkeeping_window = true;
             c.f_long_downtime = 250;
             c.f_clock_jump = 40;
             c.f_underfund = 450;
@@ -210,6 +211,14 @@ pub fn profile_cfg(profile: &str, content: &mut Rng) -> RunCfg {
         "overlap" => {
             c.n_hashes = 1;
             c.max_sets = 5;
+            // an everyday policy and payable invoices: this profile is about
+            // consecutive payments of one hash overlapping, not about inputs
+            c.policy_base = *content.pick(&[0u32, 1, 1000]);
+            c.policy_ppm = *content.pick(&[0u32, 5000]);
+            c.policy_delta = *content.pick(&[40u16, 144]);
+            c.cltv_delta = *content.pick(&[0u16, 18, 34]);
+            c.start_height = *content.pick(&[100u32, 800_000]);
+            c.no_self_hints = false;
             c.f_rpc_delay = 500;
             c.f_rpc_reorder = 600;
             c.f_part_fail = 500;
@@ -595,7 +604,7 @@ impl RandomSched {
                             | super::oracle::RpcKind::MarkSucceededAttempt
                     )
             });
-            if bookkeeping_pending {
+            if bookkeeping_pending && c.crash_in_bookkeeping_window {
                 p = p.max(c.f_crash * 5);
             }
             if self.rng.permille(p.min(500)) {
